@@ -220,6 +220,10 @@ func c20Exec(run *ev.Run, c ev.Case) {
 					CompletionCode: ipmi.CompletionCode(r.Intn(256)),
 				}
 				body := rbytes(r, r.Intn(24))
+				if (a+nl)%97 == 0 {
+					// the checksum is defined over regions of any length: long bodies too
+					body = rbytes(r, []int{240, 249, 250, 251, 252, 253, 254, 255, 256, 257, 300, 511, 512, 700}[(a*3+nl)%14])
+				}
 				if err := gopacket.SerializeLayers(buf, gopacket.SerializeOptions{FixLengths: true, ComputeChecksums: true}, &m, gopacket.Payload(body)); err != nil {
 					viol("checksum-serialise-error", err.Error(), nil)
 					continue
@@ -241,6 +245,9 @@ func c20Exec(run *ev.Run, c ev.Case) {
 		r := rng(2, "c20chkdec")
 		for i := 0; i < 64; i++ {
 			body := rbytes(r, r.Intn(20))
+			if i%8 == 7 {
+				body = rbytes(r, []int{245, 249, 250, 251, 252, 256, 300, 460}[i/8])
+			}
 			msg := refbmc.BuildRsp(0x81, 0x07, 0, 0x20, byte(r.Intn(64)), 0, byte(r.Intn(256)), byte(r.Intn(256)), body)
 			for pos := 0; pos < 2; pos++ {
 				idx := 2
